@@ -147,6 +147,21 @@ var kinds = []kind{
 	}},
 }
 
+// hookWriter runs before() once, inside its first Write, then stores what is written.
+type hookWriter struct {
+	buf    bytes.Buffer
+	before func()
+	done   bool
+}
+
+func (h *hookWriter) Write(p []byte) (int, error) {
+	if !h.done {
+		h.done = true
+		h.before()
+	}
+	return h.buf.Write(p)
+}
+
 func bucket(n int) string {
 	switch {
 	case n == 0:
@@ -161,7 +176,7 @@ func bucket(n int) string {
 
 func main() {
 	r := ev.Start("C38", "exploration")
-	r.SetRule("one frame per case: seeded message of one of 8 framed types (payload 0 B..64 KiB), written by Send, followed by 0..64 random trailing bytes and read back through a reader handing out everything / 1 byte / random 1..n bytes per Read; per frame also BoundedReceive at max = size-1, size, size+1, 0 and 2^32-1, truncation at seeded offsets (inside the prefix, inside the payload, one byte short), a hostile length prefix, and every 8th case a train of 2..5 frames on one stream; distinct by (type, payload size bucket, reader mode) and by sub-check kind")
+	r.SetRule("one frame per case: seeded message of one of 8 framed types (payload 0 B..64 KiB), written by Send, followed by 0..64 random trailing bytes and read back through a reader handing out everything / 1 byte / random 1..n bytes per Read; per frame also BoundedReceive at max = size-1, size, size+1, 0 and 2^32-1, truncation at seeded offsets (inside the prefix, inside the payload, one byte short), a hostile length prefix, every 8th case a train of 2..5 frames on one stream, and every 2nd case (right after its truncated reads) a Send that overlaps a Receive of another message of the same size class on another stream; distinct by (type, payload size bucket, reader mode) and by sub-check kind")
 	rng := r.Rand("c38")
 	n := r.Pick(5000, 500000)
 	var sub int64
@@ -284,6 +299,49 @@ func main() {
 				r.Violation("truncated:accepted:"+where, "", fmt.Sprintf("%s frame of %d bytes cut at %d was accepted", k.name, len(frame), cut), w(map[string]any{"cut": cut}))
 			} else if !proto.Equal(got, k.fresh()) {
 				r.Violation("truncated:partial-message:"+where, "", fmt.Sprintf("%s frame cut at %d: error %v but the message was partially filled", k.name, cut, err), w(map[string]any{"cut": cut}))
+			}
+		}
+
+		// 3b. framing calls that overlap in time, right after the failed reads above: while Send is
+		// inside the stream's Write for message A, a Receive of message B (same size class) runs on
+		// another stream (here: from within Write, which is what a second goroutine amounts to for
+		// the buffer pool). Both must come out as written — buffers are not shared between calls,
+		// whatever an earlier error path did with its own.
+		if i%2 == 0 {
+			class := func(n int) int {
+				c := 0
+				for n > 0 {
+					n >>= 1
+					c++
+				}
+				return c
+			}
+			var mB msg
+			for try := 0; try < 24; try++ {
+				c := k.gen(rng)
+				if class(c.SizeVT()+rpc.LengthSize) == class(len(frame)) && !proto.Equal(c, m) {
+					mB = c
+					break
+				}
+			}
+			if mB != nil {
+				var wireB bytes.Buffer
+				if err := rpc.Send(&wireB, mB); err == nil {
+					gotB := k.fresh()
+					var errB error
+					hw := &hookWriter{before: func() { errB = rpc.Receive(bytes.NewReader(wireB.Bytes()), gotB) }}
+					errA := rpc.Send(hw, m)
+					gotA := k.fresh()
+					var errA2 error
+					if errA == nil {
+						errA2 = rpc.Receive(bytes.NewReader(hw.buf.Bytes()), gotA)
+					}
+					sub++
+					r.Distinct("overlapping-send-receive/" + bucket(psize))
+					if errA != nil || errA2 != nil || errB != nil || !proto.Equal(gotA, m) || !proto.Equal(gotB, mB) {
+						r.Violation("overlap:frame-not-read-back-as-written", "", fmt.Sprintf("%s: a Send (%d B) overlapping a Receive on another stream, after truncated reads: send err=%v, read-back err=%v equal=%v; other stream err=%v equal=%v", k.name, psize, errA, errA2, proto.Equal(gotA, m), errB, proto.Equal(gotB, mB)), w(nil))
+					}
+				}
 			}
 		}
 
